@@ -58,6 +58,7 @@ type FamilySpec struct {
 	StopCallee string
 	StopOrd    int
 	StopSpec   *Node
+	Judge      *Node // optional: what the final result of a replay must satisfy (stop families with early returns)
 	// replace: the n-th dynamic call of Callee returns tenth(k), k in Lo..Hi, bound to ghost As
 	ReplCallee string
 	ReplOrd    int
@@ -644,6 +645,12 @@ func parseFamily(text string) (*FamilySpec, error) {
 				return nil, err
 			}
 			fam.StopSpec = sp
+		case strings.HasPrefix(p, "judge "):
+			jg, err := parseCExpr(p[6:])
+			if err != nil {
+				return nil, err
+			}
+			fam.Judge = jg
 		case strings.HasPrefix(p, "replace "):
 			fs := strings.Fields(p)
 			// replace F#n grid LO HI [pm0] as K
